@@ -133,7 +133,8 @@ def history_runs(nruns, seed):
             np.random.seed(s)
             random.seed(s)
             mode = ["plain", "localopt", "localopt-mp", "subset", "archipelago", "archipelago-localopt",
-                    "implicit-required", "implicit", "implicit-schmidt", "archipelago-implicit-required"][r % 10]
+                    "implicit-required", "implicit", "implicit-schmidt", "archipelago-implicit-required",
+                    "localopt-lm-tiny"][r % 11]
             if "implicit" in mode:
                 # circle data in 3 variables (one of them unused by the invariant): equations using too few variables
                 # are rejected with an inf vector when required_params is set - an invocation all the same
@@ -148,7 +149,9 @@ def history_runs(nruns, seed):
                 else:
                     fit = ir.ImplicitRegression(itd, required_params=(rng.choice([2, 3]) if "required" in mode else None))
             else:
-                x = np.linspace(-2, 2, 24).reshape(-1, 1)
+                # one data point: equations with two or more constants make the root method reject the problem and the
+                # optimizer fall back to BFGS - invocations all the same
+                x = np.linspace(-2, 2, 1 if mode == "localopt-lm-tiny" else 24).reshape(-1, 1)
                 td = ExplicitTrainingData(x, x ** 2 + 3.5 * x)
                 cg = ComponentGenerator(1)
                 for o in ("+", "-", "*"):
@@ -156,7 +159,7 @@ def history_runs(nruns, seed):
                 fit = ExplicitRegression(training_data=td)
             fn = fit
             if "localopt" in mode:
-                fn = LocalOptFitnessFunction(fit, ScipyOptimizer(fit, method=rng.choice(["lm", "BFGS"])))
+                fn = LocalOptFitnessFunction(fit, ScipyOptimizer(fit, method=("lm" if mode == "localopt-lm-tiny" else rng.choice(["lm", "BFGS"]))))
             if mode == "subset":
                 ev = RandomSubsetEvaluation(fn, 10)
             else:
@@ -180,6 +183,39 @@ def history_runs(nruns, seed):
                     break
             out["runs"] += 1
             out["samples"].append(dict(mode=mode, seed=s, reported=opt.get_fitness_evaluation_count(), real=counter.value))
+        # ---- one phase of RandomSubsetEvaluation: subsets smaller than, one short of, and as large as the data; marked
+        # individuals carry a fitness that belongs to nothing.  Redundant evaluation (its default) re-evaluates everybody.
+        from bingo.symbolic_regression.agraph.agraph import AGraph
+        out["subset_phase_checks"] = 0
+        for r in range(max(6, nruns)):
+            n = rng.choice([6, 9, 12])
+            x = np.linspace(-2, 2, n).reshape(-1, 1)
+            fit = ExplicitRegression(training_data=ExplicitTrainingData(x, x ** 2 + 3.5 * x))
+            size = [n, n - 1, n // 2][r % 3]
+            red = [None, True, False][(r // 3) % 3]
+            ev = RandomSubsetEvaluation(fit, size) if red is None else RandomSubsetEvaluation(fit, size, redundant=red)
+            pop, marked = [], []
+            for k in range(rng.randint(2, 6)):
+                g = AGraph(equation=rng.choice(["X_0", "X_0*X_0", "X_0 + 1.5", "2.0*X_0 - X_0*X_0", "X_0*X_0 + 3.5*X_0"]))
+                if rng.random() < 0.6:
+                    g.fitness = 1234.5 + k
+                    marked.append(k)
+                pop.append(g)
+            counter.value = 0
+            c0 = fit.eval_count
+            ev(pop)
+            real, rep_ = counter.value, fit.eval_count - c0
+            due = len(pop) if red in (None, True) else len(pop) - len(marked)
+            out["subset_phase_checks"] += 1
+            tag = "RandomSubsetEvaluation(subset %d of %d points, redundant=%r), %d individuals of which %s marked" % (size, n, red, len(pop), marked)
+            if real != due or rep_ != due:
+                out["viol"].append("%s: %d evaluations were due, the fitness function was invoked %d times and reports %d" % (tag, due, real, rep_))
+                continue
+            for k, g in enumerate(pop):
+                want = float(fit(g)) if (red in (None, True) or k not in marked) else 1234.5 + k
+                if not g.fit_set or not (float(g.fitness) == want or (np.isnan(g.fitness) and np.isnan(want))):
+                    out["viol"].append("%s: slot %d holds fitness %r (flag %r), due is %r" % (tag, k, g.fitness, g.fit_set, want))
+                    break
     finally:
         for cls, name, orig in saved:
             setattr(cls, name, orig)
@@ -199,7 +235,7 @@ def check(rep, proof, pid="C19"):
     rng = random.Random(rep.seed)
     n = 700 if rep.tier == "quick" else 12000
     cases = [gen_case(rng) for _ in range(n)]
-    rc, res, out, wall = vlib.run_impl("c19", dict(cases=cases, history_runs=10 if rep.tier == "quick" else 100, seed=rep.seed),
+    rc, res, out, wall = vlib.run_impl("c19", dict(cases=cases, history_runs=11 if rep.tier == "quick" else 110, seed=rep.seed),
                                        timeout=3400)
     if res is None:
         rep.violation("implementation harness crashed", dict(relation="corr_C19_evalphase", log=out[-3000:]), has_input=False)
@@ -218,7 +254,8 @@ def check(rep, proof, pid="C19"):
              "2 workers, RandomSubsetEvaluation) checked after every evolve; non-trivial = at least two individuals",
         samples=[cases[0]] + hist["samples"][:2],
         correspondence=dict(cases=len(cases), disagreements=len(bad)),
-        history=dict(runs=hist["runs"], count_checks=hist["checks"], violations=len(hist["viol"])),
+        history=dict(runs=hist["runs"], count_checks=hist["checks"], subset_phase_checks=hist.get("subset_phase_checks", 0),
+                     violations=len(hist["viol"])),
         oracle_violations=len(oracle_bad) + len(hist["viol"]),
         distribution=dict(multiprocess=sum(c["multi"] for c in cases), redundant=sum(c["red"] for c in cases)),
     )
